@@ -1,7 +1,7 @@
 (* Property C05 — serialization and persistence round trip.  Statements only; proofs in Proofs/. *)
 From PG Require Import Common.Tactics Model.Json Model.MemFS Model.MemSeq Proofs.JsonProofs Proofs.JsonStrProofs
   Proofs.MemFSPaths Proofs.MemFSTree Proofs.MemFSProofs Proofs.MemFSPure Proofs.MemSeqProofs
-  Model.JsonFields Gen.JsonFields Proofs.JsonFieldsProofs Proofs.JsonFieldsInstance.
+  Model.JsonFields Gen.JsonFields Proofs.JsonFieldsProofs Proofs.JsonFieldsInstance Model.JsonText Proofs.JsonTextProofs.
 
 (* Object form: pg.from_json (pg.to_json v) is v, for every value outside the reserved encodings. *)
 Theorem C05_json_roundtrip : forall q ct v, no_quirks q -> ct_ok ct = true -> ser_ok ct v = true ->
@@ -202,3 +202,30 @@ Theorem C05_schema_without_fields_refuted :
   construct schema_before_fix (emit (cd_fields schema_before_fix) (fun _ => true) (fun _ => VConst CNil)) = None.
 Proof. exact schema_without_fields_refuted. Qed.
 Print Assumptions C05_schema_without_fields_refuted.
+
+(* ---- the JSON text layer made concrete: json.dumps (ensure_ascii, ", " / ": ") and json.loads (strict) ---- *)
+(* json.loads (json.dumps j) = j for every tree with string keys, distinct, without adjacent surrogate pairs and
+   with valid code points; about finite floats only this is assumed: their repr is a number token that is not an
+   int token and that float() reads back (floats_ok quantifies over the floats that occur in j). *)
+Theorem C05_text_loads_dumps : forall float_repr float_repr_negzero parse_float_tok j,
+  sj_ok j = true -> cps_ok j = true -> floats_ok float_repr float_repr_negzero parse_float_tok j ->
+  loads parse_float_tok (dumps float_repr float_repr_negzero j) = Some j.
+Proof. exact loads_dumps. Qed.
+Print Assumptions C05_text_loads_dumps.
+
+(* C05_str_roundtrip with its Section hypothesis discharged: the text layer is the model above. *)
+Theorem C05_str_roundtrip_text : forall fr fnz pf q ct v,
+  ct_ok ct = true -> ser_ok ct v = true -> str_ok v = true -> pv_cps_ok v = true ->
+  (q_empty_tuple q = false \/ no_empty_tuple v = true) ->
+  floats_ok fr fnz pf (to_sj v) ->
+  of_str str (loads pf) q ct (to_str str (dumps fr fnz) v) = Ok v.
+Proof. exact text_roundtrip. Qed.
+Print Assumptions C05_str_roundtrip_text.
+
+(* For values without finite floats nothing at all is assumed about the text layer. *)
+Theorem C05_str_roundtrip_text_nofloat : forall fr fnz pf q ct v,
+  ct_ok ct = true -> ser_ok ct v = true -> str_ok v = true -> pv_cps_ok v = true -> pv_nofloat v = true ->
+  (q_empty_tuple q = false \/ no_empty_tuple v = true) ->
+  of_str str (loads pf) q ct (to_str str (dumps fr fnz) v) = Ok v.
+Proof. exact text_roundtrip_nofloat. Qed.
+Print Assumptions C05_str_roundtrip_text_nofloat.
